@@ -36,6 +36,7 @@ type verifClSub struct {
 	w     int
 	mode  string
 	hook  func()
+	nmu   sync.Mutex
 	c     *container
 	rec   *internal.VerifRecorder
 	sub   *Subscriber
@@ -96,6 +97,8 @@ func VerifRunCluster(cs VerifClusterCase, hook VerifResHook) (res map[string]any
 	}()
 
 	var mu sync.Mutex
+	var joinHook func()
+	var injectedRec []bool
 	var fired []any
 	var armed []*verifClSub
 	fire := func(s *verifClSub) {
@@ -113,8 +116,20 @@ func VerifRunCluster(cs VerifClusterCase, hook VerifResHook) (res map[string]any
 		switch mode {
 		case "rec":
 			s.c = newContainer(excl)
-			s.c.addListener(func() { s.notes = append(s.notes, verifClSorted(s.c.getValues())) })
+			s.c.addListener(func() {
+				v := verifClSorted(s.c.getValues())
+				s.nmu.Lock()
+				s.notes = append(s.notes, v)
+				s.nmu.Unlock()
+			})
 			s.rec = &internal.VerifRecorder{Fwd: s.c, Hook: func() { fire(s) }}
+			if jh := joinHook; jh != nil { // the joiner's own first replayed OnAdd
+				joinHook = nil
+				s.rec.Hook = func() {
+					s.rec.Hook = func() { fire(s) }
+					jh()
+				}
+			}
 			if err := internal.GetRegistry().Monitor(eps(), wk.Key, wk.Exact, s.rec); err != nil {
 				return err.Error()
 			}
@@ -134,7 +149,10 @@ func VerifRunCluster(cs VerifClusterCase, hook VerifResHook) (res map[string]any
 			}
 			s.sub = sub
 			sub.AddListener(func() {
-				s.notes = append(s.notes, verifClSorted(sub.Values()))
+				v := verifClSorted(sub.Values())
+				s.nmu.Lock()
+				s.notes = append(s.notes, v)
+				s.nmu.Unlock()
 				fire(s)
 			})
 			s.vals = sub.Values
@@ -225,6 +243,58 @@ func VerifRunCluster(cs VerifClusterCase, hook VerifResHook) (res map[string]any
 			errs = doSub(geti(1), geti(2), gets(3), getb(4))
 		case "unsub":
 			errs = doUnsub(geti(1))
+		case "subj", "spyj":
+			// ["subj", sid, w, excl, muts] / ["spyj", w, muts]: a subscriber joins the watcher (subj: a further
+			// listener of a watched key, Registry.Monitor's replay; spyj: the first listener of a key, monitor's load)
+			// and, WHILE it is being handed the first known value, the keys of muts are registered / deleted in
+			// etcd and the watch goroutine gets the time to handle them (it may also have to wait for the join).
+			var muts [][]string
+			mi := 4
+			if name == "spyj" {
+				mi = 2
+			}
+			if err := json.Unmarshal(parts[mi], &muts); err != nil {
+				panic(err)
+			}
+			inject := func() {
+				for _, m := range muts {
+					if m[0] == "put" {
+						etcd.VPut(m[1], m[2])
+					} else {
+						etcd.VDelete(m[1])
+					}
+				}
+				etcd.QuiesceLoose(nil, 150*time.Millisecond)
+				time.Sleep(2 * time.Millisecond)
+			}
+			injected := false
+			if name == "spyj" {
+				w := geti(1)
+				sp := &internal.VerifSpy{E: etcd, Tag: internal.VerifTag(cs.Watchers[w].Key, cs.Watchers[w].Exact)}
+				sp.Hook = func() { injected = true; inject() }
+				if err := internal.GetRegistry().Monitor(eps(), cs.Watchers[w].Key, cs.Watchers[w].Exact, sp); err != nil {
+					errs = err.Error()
+				} else {
+					spies[w] = sp
+					nlist[w]++
+				}
+				sp.Hook = nil
+			} else {
+				joining := true
+				joinHook = func() {
+					if joining { // only while Monitor is replaying to the joiner
+						injected = true
+						inject()
+					}
+				}
+				errs = doSub(geti(1), geti(2), "rec", getb(3))
+				joining = false
+				joinHook = nil
+			}
+			if !injected { // nothing was replayed (no known value): the registrations are made after the join
+				inject()
+			}
+			injectedRec = append(injectedRec, injected)
 		case "hook":
 			// ["hook", trigger, "unsub", target, how] / ["hook", trigger, "sub", sid, mode, excl, how]:
 			// the next time the trigger subscriber is called back DURING THIS STEP (the watcher is in the middle of
@@ -382,8 +452,10 @@ func VerifRunCluster(cs VerifClusterCase, hook VerifResHook) (res map[string]any
 				}
 				o["notes"] = p
 			} else {
+				s.nmu.Lock()
 				n := s.notes
 				s.notes = nil
+				s.nmu.Unlock()
 				if n == nil {
 					n = [][]string{}
 				}
@@ -401,7 +473,9 @@ func VerifRunCluster(cs VerifClusterCase, hook VerifResHook) (res map[string]any
 			f = []any{}
 		}
 		mu.Unlock()
-		steps = append(steps, map[string]any{"fired": f, "log": etcd.TakeLog(), "stuck": stuck, "paused": paused, "err": errs,
+		inj := injectedRec
+		injectedRec = nil
+		steps = append(steps, map[string]any{"injected": inj, "fired": f, "log": etcd.TakeLog(), "stuck": stuck, "paused": paused, "err": errs,
 			"rev": etcd.Rev(), "live": etcd.Live(), "state": internal.VerifClusterState(hosts...), "subs": sobs})
 	}
 	return map[string]any{"id": cs.ID, "steps": steps}
